@@ -18,6 +18,10 @@ def processLine (line : String) : String :=
       | some h =>
         match args.mapM Term.parse, Term.parse rhs with
         | some ts, some impl =>
+          -- a call that did not return at all (the harness gives up after 20 s): no model predicts that
+          if rhs == "HANG" then
+            "DISAGREE model=returns oracle=FAIL:C05 the call did not return within 20 s (deadlock / wedge: no API sequence or input may hang the caller) branch=" ++ fn ++ "/hang"
+          else
           match h ts impl with
           | some v =>
             let ms := v.model.toStr
